@@ -90,6 +90,58 @@ def props_of(x):
     return p if isinstance(p, list) else [p]
 
 
+DESTRUCTIVE = {"rmtree", "unlink", "remove", "rename", "replace", "move", "copytree", "copy2", "copyfile", "copy", "rmdir", "removedirs", "truncate"}
+# call sites that the properties allow as they are (not experiment outputs / explicitly excepted by the property text)
+SCAN_ALLOW = {
+    "cli/clean.py": "`cond clean` is the one command the property lets delete recorded versions",
+    "execution/ops/transfer_repo.py": "remote-execution bundle file outside cond-out task outputs (feature not covered by the properties)",
+    "execution/version_index.py::VersionIndex._run_v1_to_v2_migration": "copies the index file to a backup before the v1->v2 migration (never an output directory)",
+    "explorer/": "the explorer only serves files",
+}
+
+
+def destructive_call_sites(reg):
+    import ast as _ast
+    src_root = os.environ.get("PYVC_REPO_SRC", "/repo/src/conductor")
+    under, outside, allowed = [], [], []
+    # under contract FOR a file-system safety property (the call-site preconditions of rmtree / copytree / move / unlink
+    # are obligations of these properties only)
+    FS_PROPS = {"C08", "C11", "C12", "C13", "C18"}
+    contracted = {c.target for c in reg.contracts.values() if not c.extern and not c.target.startswith("ext::") and (FS_PROPS & set(c.all_props()))}
+    for dirpath, _dirs, files in os.walk(src_root):
+        for fn in files:
+            if not fn.endswith(".py"):
+                continue
+            path = os.path.join(dirpath, fn)
+            rel = os.path.relpath(path, src_root)
+            try:
+                tree = _ast.parse(open(path, encoding="utf-8").read())
+            except SyntaxError:
+                continue
+
+            def walk(node, qual):
+                for ch in _ast.iter_child_nodes(node):
+                    q = qual
+                    if isinstance(ch, (_ast.FunctionDef, _ast.AsyncFunctionDef, _ast.ClassDef)):
+                        q = (qual + "." if qual else "") + ch.name
+                    if isinstance(ch, _ast.Call) and isinstance(ch.func, _ast.Attribute) and ch.func.attr in DESTRUCTIVE:
+                        base = _ast.unparse(ch.func.value)
+                        if ch.func.attr in ("replace", "copy", "remove", "move") and base not in ("shutil", "os"):
+                            pass        # str.replace / dict.copy / list.remove ...
+                        else:
+                            site = {"function": "%s::%s" % (rel, qual or "<module>"), "call": "%s.%s" % (base, ch.func.attr), "line": ch.lineno}
+                            why = next((w for k, w in SCAN_ALLOW.items() if site["function"].startswith(k) or rel.startswith(k)), None)
+                            if site["function"] in contracted or any(site["function"].startswith(t + ".") for t in contracted):
+                                under.append(site)
+                            elif why:
+                                allowed.append(dict(site, allowed_because=why))
+                            else:
+                                outside.append(site)
+                    walk(ch, q)
+            walk(tree, "")
+    return {"under_contract": under, "allowed": allowed, "outside_contract": outside}
+
+
 def main():
     ap = argparse.ArgumentParser()
     ap.add_argument("prop")
@@ -236,6 +288,15 @@ def main():
             for nme in solve.probe_texts(probes):
                 errors.append("vacuity: %s" % nme)
 
+    # ------------------------------------------------------------------ 1b. frame scan (C08 / C12 / C13)
+    # "Conductor never writes into, replaces or deletes ..." is proved per function (call-site preconditions of rmtree /
+    # copytree / move / unlink).  That argument covers the whole program only if every call site of a destructive
+    # file-system operation lies in a function under contract: scan the real source for call sites elsewhere.
+    scan = None
+    if prop in ("C08", "C12", "C13") and not args.no_proof:
+        scan = destructive_call_sites(reg)
+        for site in scan["outside_contract"]:
+            undecided.append({"function": site["function"], "reason": "destructive file-system call `%s` (line %d) in a function that is not under contract for a file-system safety property" % (site["call"], site["line"])})
     t_ded = time.time() - t_start
     # ------------------------------------------------------------------ 2. concrete part
     rt_docs = []
@@ -376,6 +437,7 @@ def main():
         "known_findings_printed": known_lines,
         "ghost_assumes_in_sidecar": sorted(set(ghost_assumes)),
         "second_solver": locals().get("second", {}),
+        "destructive_call_site_scan": scan,
         "a_plan_link_planner_post_equals_executor_pre": locals().get("plan_link"),
         "extraction_drops": "docstrings, comments, type annotations (used only to choose sorts), print_* cosmetics; `assert` statements become obligations",
     }
